@@ -215,3 +215,22 @@ def expand_expr(cfg, nid, expr, depth=10):
             return node
         visit_SetComp = visit_DictComp = visit_GeneratorExp = visit_ListComp
     return T().visit(copy.deepcopy(expr))
+
+
+def node_containing(cfg, sub):
+    """id of the CFG node whose statement / test / iterator contains the AST node `sub` (innermost: fewest nodes)"""
+    best = None
+    for n in cfg.nodes.values():
+        a = n.ast
+        if a is None or isinstance(a, (ast.FunctionDef, ast.AsyncFunctionDef, ast.ClassDef)):
+            continue
+        root = a.iter if n.kind == 'for' else a
+        size = 0
+        hit = False
+        for x in ast.walk(root):
+            size += 1
+            if x is sub:
+                hit = True
+        if hit and (best is None or size < best[0]):
+            best = (size, n.id)
+    return best[1] if best else None
